@@ -97,7 +97,7 @@ Fixpoint opt_vrange (fuel : nat) (e : vexp) (a b : nat) {struct fuel} : vexp :=
     (* BROKEN-IN-CXX: calls m.expression(), the member is matrix() *)
     (* DEFECT-IN-CXX: code and comment cut COLUMNS start..end of the matrix; the elements of the fold are indexed by rows *)
     | VFold k g m =>
-        if fx then VFold k g (opt_mrange f m a b 0 (mcols m))
+        if fx then VFold k g (opt_mrows f m a b)      (* repaired C++: matrix_rows_optimizer::create(m.matrix(), start, end) *)
         else VFold k g (opt_mrange f m 0 (mrows m) a b)
     (* ARM vector_range_optimizer vector_scalar_multiply<_> *)
     | VScale c e1 => VScale c (opt_vrange f e1 a b)
